@@ -4,8 +4,8 @@
 # pinned baseline passes with the patch, demo fails with the patch. On success copies
 # patch, demo and notes to /verif/seeded/<ID>/ and writes meta.json. Never touches /repo.
 set -u
-ID="$1"; SRC="${2:-/tmp/seed-$ID}"
-V=/verif; OUT=$V/seeded/$ID
+ID="$1"; SRC="${2:-/tmp/seed-$ID}"; KEEP="${3:-$ID}"
+V=/verif; OUT=$V/seeded/$KEEP
 export GOFLAGS=-mod=mod GOPROXY=off
 [[ -f "$SRC/SEED/patch.diff" ]] || { echo "SEED $ID: no patch.diff"; exit 2; }
 DEMO_REL=$(cd "$SRC" && git status --short | awk '$1=="??"{print $2}' | grep -E '_test\.go$' | grep -v '^SEED/' | head -1)
@@ -30,15 +30,15 @@ if [[ $crc -eq 0 && "$base" == pass && $mrc -ne 0 ]]; then
   cp "$SRC/SEED/patch.diff" "$OUT/patch.diff"
   cp "$SRC/$DEMO_REL" "$OUT/$(basename "$DEMO_REL").txt"
   [[ -f "$SRC/SEED/NOTES.md" ]] && cp "$SRC/SEED/NOTES.md" "$OUT/NOTES.md"
-  python3 - "$ID" "$DEMO_REL" "$RUNPAT" <<'PY'
+  python3 - "$ID" "$DEMO_REL" "$RUNPAT" "$KEEP" <<'PY'
 import json,sys,subprocess
-ID,demo,pat=sys.argv[1:4]
+ID,demo,pat,KEEP=sys.argv[1:5]
 head=subprocess.check_output(['git','-C','/repo','rev-parse','--short','HEAD']).decode().strip()
 meta={"property":ID,"written_by":"independent sub-agent that saw only the property text","repo_head":head,
  "demo":{"file":demo+" (stored here as "+demo.split('/')[-1]+".txt)","run":f"go test -count=1 -run '^({pat})$' ./{'/'.join(demo.split('/')[:-1])}"},
  "verified":{"demo_passes_on_unchanged_tree":True,"patch_applies_and_builds":True,"pinned_baseline_passes_with_patch":True,"demo_fails_with_patch":True,"how":"tools/seed_verify.sh in a fresh scratch worktree of /repo"},
  "needs_to_manifest":"see NOTES.md","caught_by":"see seeded/SUMMARY.md"}
-json.dump(meta,open(f'/verif/seeded/{ID}/meta.json','w'),indent=1)
+json.dump(meta,open(f'/verif/seeded/{KEEP}/meta.json','w'),indent=1)
 PY
   echo "SEED $ID: KEPT in $OUT"
 else
